@@ -7,8 +7,13 @@
 import Tdgl.Scalar
 import Tdgl.Step
 import Tdgl.Operators
+import Tdgl.Update
+import Tdgl.Runner
+import Tdgl.Adaptive
 
 open Tdgl
+
+instance : NatCast Float := ⟨Float.ofNat⟩
 
 namespace Drv
 
@@ -41,6 +46,34 @@ def c02 : List String → String
     | some (p, x) => s!"some {b p.re} {b p.im} {b x}"
   | _ => "bad-op"
 
+/-- physics stub for the loop model: state = number of updates done so far (global), the time step of
+    update number `s` is `dts[s]`, the record is the update's number -/
+def stubUpd (dts : Array Float) : Nat → Nat → Float → Float × Nat × Nat :=
+  fun s _ _ => (dts.getD s 0, s + 1, s)
+
+def showFrame (fr : Frame Float Nat Nat) : String :=
+  let recs := match fr.recs with
+    | none => "-"
+    | some l => "[" ++ ",".intercalate (l.map toString) ++ "]"
+  s!"{fr.step}:{b fr.time}:{fr.snap}:{recs}"
+
+def showRun : RunResult Float Nat Nat → String
+  | .zeroDivision => "zerodiv"
+  | .outOfFuel => "fuel"
+  | .done frames fin => s!"done final={fin} " ++ " ".intercalate (frames.map showFrame)
+
+/-- dt controller driven by per-step refusal sets: `ok_i dt := dt ∉ refused_i` -/
+def adaptLoop (o : AdaptOpts Float) (ds : Array Float) (refused : Array (Array Float)) :
+    Nat → Nat → AdaptState Float → List String → List String
+  | 0, _, _, acc => acc.reverse
+  | n+1, i, stt, acc =>
+    let ok : Float → Bool := fun dt => !((refused.getD i #[]).any (fun r => r.toBits == dt.toBits))
+    match dtUsed o ok stt.tentative with
+    | none => (s!"raise@{i}" :: acc).reverse
+    | some dt =>
+      let st' := adaptAfter o stt i dt (ds.getD i 0)
+      adaptLoop o ds refused n (i+1) st' (s!"{b dt}:{b st'.tentative}" :: acc)
+
 def step (st : St) (line : String) : St × String :=
   let secs := (line.trimAscii.toString.splitOn "|").map (fun s => s.trimAscii.toString)
   match secs with
@@ -63,6 +96,49 @@ def step (st : St) (line : String) : St × String :=
       let fixed := nats fx
       (st, outC m.n (clapRow m (fun r => fixed.getD r 0 == 1) (linkOf (fn (floats th))) (cfn (floats psi))))
     | ["js"], [th, psi] => (st, outF m.E (superEdge m (linkOf (fn (floats th))) (cfn (floats psi))))
+    | ["rhs"], [js, dadt, mb] =>
+      (st, outF m.n (poissonRhs m (fn (floats js)) (fn (floats dadt)) (fn (floats mb))))
+    | ["jn"], [mu, dadt] => (st, outF m.E (normalEdge m (fn (floats mu)) (fn (floats dadt))))
+    | ["tdens"], [cur, tlen] =>
+      let c := floats cur
+      (st, outF c.size (terminalDensity c.size (fn c) (fn (floats tlen))))
+    | ["euler", g, u, dt], [fx, th, psi, a, mu, eps] =>
+      let fixed := nats fx
+      let r := fun r => eulerSite m (fun s => fixed.getD s 0 == 1) (linkOf (fn (floats th))) (cfn (floats psi))
+        (fn (floats a)) (fn (floats mu)) (fn (floats eps)) (f g) (f u) (f dt) r
+      (st, " ".intercalate ((List.range m.n).map (fun i => match r i with
+        | none => "none"
+        | some (p, x) => s!"{b p.re},{b p.im},{b x}")))
+    | ["lapentries"], [fx, th] =>
+      let fixed := nats fx
+      let M := clapEntry m (fun r => fixed.getD r 0 == 1) (linkOf (fn (floats th)))
+      (st, outC (m.n * m.n) (fun k => M (k / m.n) (k % m.n)))
+    | ["gradentries"], [th] =>
+      let M := cgradEntry m (linkOf (fn (floats th)))
+      (st, outC (m.E * m.n) (fun k => M (k / m.n) (k % m.n)))
+    | ["laprefresh"], fx :: th0 :: ths =>
+      let fixed := nats fx
+      let fm : Nat → Bool := fun r => fixed.getD r 0 == 1
+      let M := ths.foldl (fun M th => refreshLap m fm M (linkOf (fn (floats th))))
+        (clapEntry m fm (linkOf (fn (floats th0))))
+      (st, outC (m.n * m.n) (fun k => M (k / m.n) (k % m.n)))
+    | ["gradrefresh"], th0 :: ths =>
+      let M := ths.foldl (fun M th => refreshGrad m M (linkOf (fn (floats th))))
+        (cgradEntry m (linkOf (fn (floats th0))))
+      (st, outC (m.E * m.n) (fun k => M (k / m.n) (k % m.n)))
+    | ["run", k, skip, tEnd, fuel], [dts] =>
+      let sk : Option Float := if skip == "-" then none else some (f skip)
+      (st, showRun (run (stubUpd (floats dts)) (nat k) sk (f tEnd) (nat fuel) 0))
+    | ["runold", k, tEnd, fuel], [dts] =>
+      match runStageOld (stubUpd (floats dts)) true (nat k) (f tEnd) (nat fuel) 0 0 0 [] [] with
+      | none => (st, "fuel")
+      | some e => (st, showRun (.done e.frames e.state))
+    | ["adapt", dtInit, dtMax, adaptive, window, mult, maxRetries], [ds, refused] =>
+      let o : AdaptOpts Float := ⟨f dtInit, f dtMax, adaptive == "1", nat window, f mult, nat maxRetries,
+        1e-10, 0.5⟩
+      let dsA := floats ds
+      let refA := ((refused.splitOn ";").map floats).toArray
+      (st, " ".intercalate (adaptLoop o dsA refA dsA.size 0 (AdaptState.init o) []))
     | _, _ => (st, "bad-op")
 
 end Drv
